@@ -253,6 +253,17 @@ def w_corrupt(arg):
     b = Blob()
     b.data = data
     text = str(b)
+    # what PGPy wrote must first of all be a block the strict reference reader accepts with a matching checksum
+    try:
+        rb0 = armor.read_blocks(text)[0]
+        good = rb0.data == data and rb0.crc_ok
+        why = 'payload or checksum differ'
+    except wire.WireError as e:
+        good, why = False, str(e)
+    if not good:
+        rec.case(('corrupt-base', n, kind), True, ('corrupt/base-block-malformed',), {'payload_len': n})
+        rec.finding('envelope', 'own-armor-rejected-by-reference', {'kind': 'corrupt', 'n': n, 'fill': kind, 'pos': -1, 'alt': ''}, '%s: %r' % (why, text[-60:]))
+        return rec
     lines = text.split('\n')
     # positions of base64 body characters and CRC characters
     positions = []
@@ -262,7 +273,7 @@ def w_corrupt(arg):
         if l == '' and not in_body:
             in_body = True
         elif in_body and l.startswith('='):
-            positions += [(off + 1 + k, 'crc') for k in range(4)]
+            positions += [(off + 1 + k, 'crc') for k in range(min(4, len(l) - 1))]
             in_body = False
         elif in_body and not l.startswith('-----'):
             positions += [(off + k, 'body') for k, ch in enumerate(l) if ch != '=']
